@@ -7,6 +7,7 @@ from __future__ import annotations
 
 import ast
 
+from ..astutil import inline_single_defs
 from ..cfg import CFG, walk_shallow
 from ..core import Report, norm
 
@@ -21,8 +22,18 @@ def _self_field(e):
     return None
 
 
+_FLAG_DEFS: dict = {}  # single-definition locals of the function being analysed (flags such as `exceeds = n > available`)
+
+
 def _guard_edge(test, amount, field, aliases):
     """Which outgoing label of this test establishes ``amount <= self.field``? -> 'true'/'false'/None"""
+    if isinstance(test, ast.Name) and test.id in _FLAG_DEFS:
+        return _guard_edge(_FLAG_DEFS[test.id], amount, field, aliases)
+    if isinstance(test, ast.BoolOp):
+        # `a and b` true  => every conjunct holds;  `a or b` false => every disjunct fails
+        if isinstance(test.op, ast.And):
+            return "true" if any(_guard_edge(v, amount, field, aliases) == "true" for v in test.values) else None
+        return "false" if any(_guard_edge(v, amount, field, aliases) == "false" for v in test.values) else None
     if isinstance(test, ast.UnaryOp) and isinstance(test.op, ast.Not):
         inner = _guard_edge(test.operand, amount, field, aliases)
         return {"true": "false", "false": "true"}.get(inner)
@@ -72,6 +83,8 @@ def check(ctx):
         for f in fl:
             rep.analysed(m.relpath, f.qualname)
             cfg = CFG(f.node, may_raise=lambda n: False)
+            _FLAG_DEFS.clear()
+            _FLAG_DEFS.update({k: v for k, v in inline_single_defs(f.node).items() if isinstance(v, (ast.Compare, ast.BoolOp, ast.UnaryOp))})
             # aliases:  local = self.<field>
             alias = {fld: set() for fld in FIELDS}
             for nd in cfg.stmts("stmt"):
